@@ -59,6 +59,8 @@ def one_step(k, acc, lm, ins, dele, iteration=0, defer_scores=False):
 def _from_state(rec):
     acc = impl.accessor(rec["live"])
     lm = dsw.accessor_to_latter_map(acc)
+    if sum(len(L) for L in rec["live"]) % 2:
+        lm = {int(a): [int(x) for x in reversed(list(b))] for a, b in lm.items()}      # the same graph as a caller would write it down
     c, _ = one_step(rec["k"], acc, lm, rec["ins"], rec["del"])
     return c
 
@@ -115,6 +117,13 @@ def histories(rng, n, maxsteps):
             maxs = maxsteps
         acc = impl.accessor(live)
         lm = dsw.accessor_to_latter_map(acc)
+        if i % 4 >= 2:          # a caller-written latter map: plain ints, successor lists in arbitrary order
+            user = {}
+            for a in lm:
+                vs = [int(x) for x in lm[a]]
+                rng.shuffle(vs)
+                user[int(a)] = vs
+            lm = user
         ins, dele = [(True, True), (True, False), (False, True), (False, False)][(i // 2) % 4]
         # every second history is an uninterrupted trimming loop as the experiments run it: round numbers 1, 2, ... are passed, the
         # flags stay the same and nothing else is called on the shared objects between two rounds
@@ -161,6 +170,10 @@ def run(ctx):
     ret_b = report(ctx, cases_b, got_b, "B")
     ctx.sample({"flow": "B", "steps": len(cases_b), "first": {k: cases_b[0][k] for k in ("k", "ins", "del", "out", "removed")}, "verdict": got_b[1]})
     ctx.notes["returning_calls_judged"] = ret_a + ret_b
+    if ret_a + ret_b == 0:
+        # the property speaks about calls that return; if none does (on graphs that have arcs) it holds vacuously and this run decided nothing
+        raise Machinery("vacuous run: none of %d remove_nasty_arc calls on graphs with arcs returned - C19 cannot be evaluated on this tree"
+                        % (len(cases) + len(cases_b)))
     ctx.assumptions += ["the intersection score is the function transcribed in Score.tla from the pinned calculate_intersection_score "
                         "(leaf sets by breadth-first layers; substitution, insertion, deletion terms)",
                         "calls that raise are outside the property and are only used to end a history"]
